@@ -175,6 +175,36 @@ def hyp_settings(ctx, max_examples):
     )
 
 
+class CaseTimeout(BaseException):
+    """A single case exceeded the per-case wall-clock guard (inconclusive, never a violation)."""
+
+
+def guarded(ctx, fn, case, seconds=None):
+    """Run fn(ctx, case) under a per-case alarm: a case that does not return (e.g. the code under test asked to build an
+    astronomically large integer) is abandoned and counted as inconclusive instead of hanging the whole check."""
+    import signal
+
+    seconds = seconds or int(os.environ.get("VERIF_CASE_TIMEOUT", "120"))
+
+    def on_alarm(signum, frame):
+        raise CaseTimeout()
+
+    try:
+        old = signal.signal(signal.SIGALRM, on_alarm)
+    except ValueError:  # not in the main thread
+        return fn(ctx, case)
+    signal.alarm(seconds)
+    try:
+        return fn(ctx, case)
+    except CaseTimeout:
+        ctx.count("inconclusive:case-timeout")
+        ctx.info.setdefault("case_timeouts", []).append(jsonable(case) if len(json.dumps(jsonable(case))) < 400 else "(large case)")
+        return None
+    finally:
+        signal.alarm(0)
+        signal.signal(signal.SIGALRM, old)
+
+
 def hyp_run(ctx, name, strategy, fn, max_examples):
     """Drive fn(ctx, case) with cases drawn from `strategy` (cases are JSON-able)."""
     from hypothesis import given, seed
@@ -185,7 +215,7 @@ def hyp_run(ctx, name, strategy, fn, max_examples):
     def prop(case):
         ctx.count("evaluations")
         ctx.count("gen:" + name)
-        fn(ctx, case)
+        guarded(ctx, fn, case)
 
     prop()
 
